@@ -245,10 +245,13 @@ impl Semaphore {
     /// Permit count and `event` listeners.
     #[doc(hidden)]
     pub fn __verif_snapshot(&self) -> crate::__verif::Snapshot {
+        crate::__verif::unrecorded(|| {
         crate::__verif::Snapshot {
             words: std::vec![self.count.load(Ordering::SeqCst)],
+            addrs: std::vec![&self.count as *const _ as usize],
             events: std::vec![crate::__verif::event(&self.event)],
         }
+        })
     }
 }
 
